@@ -100,3 +100,59 @@ func VfC20_ModuleOrder() {
 		vfAssert("C20.module.natural-order", ok)
 	}
 }
+
+// VfC20_IDOrder: attribute groups and metadata definitions are printed by
+// ascending ID whatever their IDs (three distinct symbolic digits: dense,
+// sparse, not starting at zero) and whatever the textual order of the input
+// and the map order of the translator.
+//
+//vf:unwind 600
+//vf:shards 4
+func VfC20_IDOrder() {
+	d := vfString("ids", 3)
+	for i := 0; i < 3; i++ {
+		vfAssume(vfAnd(d[i] >= '0', d[i] <= '9'))
+	}
+	vfAssume(vfAnd(d[0] != d[1], vfAnd(d[0] != d[2], d[1] != d[2])))
+	var defs [3]string
+	sigil := "attributes #"
+	uses := ""
+	if vfChoice("kind", 2) == 0 {
+		for i := 0; i < 3; i++ {
+			defs[i] = "attributes #" + d[i:i+1] + " = { nounwind }\n"
+			uses += "declare void @f" + string(rune('a'+i)) + "() #" + d[i:i+1] + "\n"
+		}
+	} else {
+		sigil = "!"
+		for i := 0; i < 3; i++ {
+			defs[i] = "!" + d[i:i+1] + " = !{i32 " + string(rune('1'+i)) + "}\n"
+		}
+	}
+	var src string
+	switch vfChoice("perm", 3) {
+	case 0:
+		src = uses + defs[0] + defs[1] + defs[2]
+	case 1:
+		src = defs[2] + uses + defs[0] + defs[1]
+	default:
+		src = defs[1] + defs[2] + defs[0] + uses
+	}
+	m0, e0 := ParseString("a.ll", uses+defs[0]+defs[1]+defs[2])
+	vfMapOrder(1 + vfChoice("maporder", 2))
+	m1, e1 := ParseString("b.ll", src)
+	vfMapOrder(0)
+	vfReach("C20.id-order")
+	vfObserveStr("src", src)
+	vfAssert("C20.id-order.accepted", vfAnd(e0 == nil, e1 == nil))
+	if e0 != nil || e1 != nil {
+		return
+	}
+	s0, s1 := m0.String(), m1.String()
+	vfAssert("C20.id-order.order-independent", s0 == s1)
+	ids := hC20Lines(s1, sigil)
+	vfAssert("C20.id-order.all-printed", len(ids) == 3)
+	if len(ids) == 3 {
+		// single digits: the printed identifiers ascend
+		vfAssert("C20.id-order.ascending", vfAnd(vfAnd(len(ids[0]) == 1, vfAnd(len(ids[1]) == 1, len(ids[2]) == 1)), vfAnd(ids[0][0] < ids[1][0], ids[1][0] < ids[2][0])))
+	}
+}
